@@ -140,28 +140,51 @@ def audit(prop):
 
 # ---------------------------------------------------------------- running
 
-def run_harness(name, tier, seed, arg=None):
+def run_harness(name, tier, seed, arg=None, shards=1):
+    """runs the Go harness (in `shards` parallel processes; direct-call cases are only emitted by shard 0)"""
     d = tempfile.mkdtemp(prefix='verif-%s-' % name)
-    out = os.path.join(d, 'cases.jsonl')
-    cmd = [os.path.join(BUILD, 'harness'), '-tier', tier, '-seed', str(seed), '-out', out]
-    if arg:
-        cmd += ['-arg', arg]
-    cmd.append(name)
-    env = dict(GOENV, GOMEMLIMIT='6GiB')
+    env = dict(GOENV, GOMEMLIMIT='3GiB')
     t = time.time()
-    rc, so, se = sh(cmd, env=env, timeout=3 * 3600)
+    procs = []
+    for i in range(shards):
+        out = os.path.join(d, 'cases%d.jsonl' % i)
+        cmd = [os.path.join(BUILD, 'harness'), '-tier', tier, '-seed', str(seed), '-out', out,
+               '-shard', str(i), '-shards', str(shards)]
+        if arg:
+            cmd += ['-arg', arg]
+        cmd.append(name)
+        procs.append((subprocess.Popen(cmd, env=env, stdout=subprocess.PIPE, stderr=subprocess.STDOUT, text=True), out))
+    rc, log = 0, ''
     recs = []
-    if os.path.exists(out):
-        with open(out) as f:
-            for line in f:
-                line = line.strip()
-                if line:
+    seen = set()
+    for p, out in procs:
+        try:
+            so, _ = p.communicate(timeout=3 * 3600)
+        except subprocess.TimeoutExpired:
+            p.kill()
+            so = 'timeout'
+        if p.returncode != 0:
+            rc = p.returncode
+            log += so[-3000:]
+        if os.path.exists(out):
+            with open(out) as f:
+                for line in f:
+                    line = line.strip()
+                    if not line:
+                        continue
                     try:
-                        recs.append(json.loads(line))
+                        r = json.loads(line)
                     except Exception:
-                        pass
+                        continue
+                    if shards > 1 and not r.get('src'):
+                        # cheap direct cases are produced identically by every shard: keep one copy
+                        k = (r.get('case'), r.get('impl'), tuple(r.get('tags', [])))
+                        if k in seen:
+                            continue
+                        seen.add(k)
+                    recs.append(r)
     shutil.rmtree(d, ignore_errors=True)
-    return rc, recs, (so + se)[-4000:], time.time() - t
+    return rc, recs, log[-4000:], time.time() - t
 
 
 def run_driver(lines):
@@ -204,7 +227,7 @@ def evaluate(prop, harness_names, tier, seed, stats):
     violations, corr = [], []
     problem = None
     for name in harness_names:
-        rc, recs, log, wall = run_harness(name, tier, seed)
+        rc, recs, log, wall = run_harness(name, tier, seed, shards=c.get('shards', 1))
         if rc != 0:
             problem = 'harness %s exited %d: %s' % (name, rc, log)
             # a crash of the harness process is itself an observation (e.g. Go runtime fatal)
